@@ -380,11 +380,24 @@ Theorem serialised_value_reads_back_identically fuel n j j' :
 Proof. exact (go_type_read_back fuel n j j'). Qed.
 Print Assumptions serialised_value_reads_back_identically.
 
-(* with the fuel the runner computes from the tree itself *)
-Theorem serialised_document_reads_back_partial id j j' : reenc_schema id j = Ok j' ->
-  (depth j <= depth j')%nat -> reenc_schema id j' = Ok j'.
-Proof. exact (reenc_schema_read_back id j j'). Qed.
-Print Assumptions serialised_document_reads_back_partial.
+(* with the fuel the runner computes from the tree itself (fuel_for, Marshal/Env.v): that fuel is enough -
+   it gives the result any larger fuel gives (cost tables of the generated types: data theorems
+   go_cost_ok / go_cost_bound, Marshal/EnvProofs.v) - so a serialised document is read back and written
+   identically, whatever the depths of the two trees *)
+Theorem reenc_schema_fuel_is_enough id t j f r : assoc id go_schemas = Some t ->
+  reenc go_env f t j = Ok r -> reenc_schema id j = Ok r.
+Proof. exact (reenc_schema_fuel_enough id t j f r). Qed.
+Print Assumptions reenc_schema_fuel_is_enough.
+
+Theorem serialised_schema_document_reads_back_identically id j j' :
+  reenc_schema id j = Ok j' -> reenc_schema id j' = Ok j'.
+Proof. exact (reenc_schema_read_back_full id j j'). Qed.
+Print Assumptions serialised_schema_document_reads_back_identically.
+
+Theorem serialised_typed_value_reads_back_identically n j j' :
+  reenc_type n j = Ok j' -> reenc_type n j' = Ok j'.
+Proof. exact (reenc_type_read_back_full n j j'). Qed.
+Print Assumptions serialised_typed_value_reads_back_identically.
 
 (* non-vacuity: a note.Message with its members in scrambled order, an unknown member, a null title, a
    map with a duplicate key and unsorted keys; and the same inside schema.Object *)
@@ -399,7 +412,8 @@ Definition msg_out : tv :=
         (bs "meta", TObj [(bs "a", TStr (bs "1")); (bs "b", TStr (bs "3"))])].
 Example typed_read_back_nonvacuous :
   reenc_schema msg_schema msg_in = Ok msg_out /\ reenc_schema msg_schema msg_out = Ok msg_out /\
-  (depth msg_in <= depth msg_out)%nat.
+  assoc msg_schema go_schemas = Some (TyRef (bs "note.Message")) /\
+  reenc_type (bs "note.Message") msg_in = Ok msg_out.
 Proof. vm_compute. repeat split; auto. Qed.
 
 Definition obj_in : tv :=
